@@ -175,6 +175,9 @@ fn draw_align(r: &mut Rng, class: u8, m: usize) -> usize {
         0 => 1 << r.below((m.trailing_zeros() + 1) as u64),
         1 => m,
         2 => 1 << r.below(7),
+        // one draw in eight of this class is stricter than a page (8 KiB .. 128 KiB): chunk
+        // alignment and size rounding have arms of their own up there
+        _ if r.chance(1, 8) => 1 << (13 + r.below(5)),
         _ => 1 << r.below(13),
     }
 }
@@ -267,6 +270,29 @@ fn uniform_types(a: usize) -> (&'static [Ty], &'static [ETy], &'static [TTy]) {
     }
 }
 
+/// Could the uniform-mode generator have produced this op for alignment `a`? Ops for which the
+/// answer is no break the premise of C10's exactness clause (same alignment, size a multiple of it)
+/// from the moment they run - also when they fail and register no block, since a refused or
+/// failed over-aligned request may legitimately leave alignment padding behind - until the next
+/// reset. Ops that allocate nothing conform.
+pub fn conforms_to_uniform(op: &Op, a: usize) -> bool {
+    let (tys, etys, ttys) = uniform_types(a);
+    match op {
+        Op::Val { ty, .. } => tys.contains(ty),
+        Op::Layout { size, align, .. } | Op::AAlloc { size, align, .. } => (*size == 0 && *align <= a) || (*align == a && size % a == 0),
+        Op::SliceCopy { ety, .. } | Op::FillWith { ety, .. } | Op::FillCopy { ety, .. } => etys.contains(ety),
+        Op::FillIter { ety, lie, .. } => etys.contains(ety) && *lie == 0,
+        Op::SliceClone { .. } | Op::FillClone { .. } | Op::FillDefault { .. } => a == 4,
+        Op::Str { .. } => a == 1,
+        Op::TryWith { ty, ety, inner, .. } => ttys.contains(ty) && *ety == ErrTy::Small && *inner == Inner::Nothing,
+        Op::SliceTryFill { ety, inner, .. } => etys.contains(ety) && *inner == Inner::Nothing,
+        Op::ADealloc { .. } | Op::AGrow { .. } | Op::AShrink { .. } => false,
+        Op::HugeLen { .. } => false,
+        Op::HandOver { ops } => ops.iter().all(|o| conforms_to_uniform(o, a)),
+        _ => true,
+    }
+}
+
 fn ety_size(e: ETy) -> usize {
     match e {
         ETy::Unit => 0,
@@ -345,6 +371,37 @@ pub fn gen_w1(seed: u64, mix: Mix, faults: Faults) -> W1Script {
         }
     }
     let mut depth = 0;
+    // uniform mode, one script in three: the premise ("every allocation in the arena ...") is
+    // about what has been allocated since the last reset, so the arena may have any past - chunks
+    // obtained for over-aligned requests, grown blocks, failed initialisers. A short mixed prefix,
+    // then `reset`, then the uniform history. The interpreter decides per block whether the
+    // premise still holds, so every subsequence of such a script stays judgeable.
+    if uniform.is_some() {
+        let mut pr = root.sub(3);
+        if pr.chance(1, 3) {
+            let n_pre = 1 + pr.below(6) as usize;
+            let mut wp = base_weights(Mix::General);
+            for k in [K_RESET, K_RECREATE, K_HAND_OVER, K_SET_LIMIT] {
+                wp[k] = 0;
+            }
+            wp[K_LAYOUT] = 30;
+            let pre_sizes = Sizes { class: pr.below(6) as u8 };
+            let pre_align_class = 2 + pr.below(2) as u8;
+            gen_ops(&mut pr, &wp, n_pre, &mut ops, &mut depth, &GenCfg {
+                min_align,
+                uniform: None,
+                sizes: &pre_sizes,
+                align_class: pre_align_class,
+                try_bias: 30,
+                allow_lies: false,
+                allow_inner: false,
+                fail_bias: 50,
+                fallible_only: false,
+                mix: Mix::General,
+            });
+            ops.push(Op::Reset);
+        }
+    }
     gen_ops(&mut r, &w, n_ops, &mut ops, &mut depth, &GenCfg {
         min_align,
         uniform,
